@@ -16,17 +16,21 @@ Definition code (agree spec_ok : bool) : N :=
 Inductive obs_res := OErr | OOk (vals : list N).
 
 Inductive case :=
-(* one MapShards + a sequence of operations on the resulting mapping *)
+(* one MapShards of a statement with one or more sources + a sequence of operations on the
+   resulting mapping, each on the measurement of one source *)
 | CQuery (local : N)
-         (shards : list (N * list N))              (* metadata view, in order: (id, owners) *)
+         (views : list (N * list (N * list N)))    (* source key -> metadata view in order: (id, owners) *)
          (data : list (N * list N))                (* shard id -> rows inside the query range *)
          (down : list N)                           (* nodes refusing connections *)
          (beh : list (N * list N * N * outcome))   (* (node, sorted ids, call index) -> outcome; default Serve *)
-         (ops : list op)
+         (srcs : list N)                           (* source keys of the statement, flattened, in order *)
+         (ops : list (N * op))                     (* (source key, operation) *)
          (refs : list (list N))                    (* per op: answer of the single-store reference *)
-         (omap : list (N * list N))                (* observed mapping: node -> sorted shard ids (local included) *)
+         (omap : list (N * (list N * list (N * list N))))
+                                                   (* observed mapping per source key: local shard ids,
+                                                      remote groups (node, sorted shard ids) *)
          (ores : list obs_res)                     (* per op: what the caller got *)
-         (olog : list (N * list N))                (* requests received by the nodes that are up *)
+         (ologs : list (list (N * list N)))        (* per op: requests received by the nodes that are up *)
 (* one MetaExecutor call against a node doing [out]: did the client report an error? *)
 | CResp (o : op) (out : outcome) (impl_err : bool).
 
@@ -49,7 +53,7 @@ Fixpoint index_of (x : N) (l : list N) : N :=
   | y :: t => if N.eqb x y then 0 else 1 + index_of x t
   end.
 
-(* the oracle is read off the observed mapping: the index (in the owner list) of the node
+(* the oracle is read off the observed mapping (per source): the index (in the owner list) of the node
    the implementation filed the shard under.  The model then has to reproduce the whole
    mapping: local-first and already-selected-first are deterministic, and a random pick
    must be an owner. *)
@@ -80,19 +84,40 @@ Definition res_eqb (q : qres) (r : obs_res) : bool :=
 
 Definition qres_of (r : obs_res) : qres := match r with OErr => QErr | OOk v => QOk v end.
 
+Definition view_of (views : list (N * list (N * list N))) : N -> list shard :=
+  fun src => mk_shards (assoc_get [] views src).
+
+(* oracle per source position, read off the observed mapping of that source *)
+Definition mchoice_of (local : N) (srcs : list N) (omap : list (N * (list N * list (N * list N))))
+  : nat -> nat -> shard -> N :=
+  fun pos _ s =>
+    let e := assoc_get ([], []) omap (nth pos srcs 0) in
+    index_of (node_of ((local, fst e) :: snd e) (sid s)) (owners s).
+
+Fixpoint seq_all {A} (f : A -> bool) (l : list A) : bool :=
+  match l with [] => true | x :: t => f x && seq_all f t end.
+
 Definition check_case (c : case) : N :=
   match c with
-  | CQuery local shards0 data0 down tab ops refs omap ores olog =>
-      let shards := mk_shards shards0 in
+  | CQuery local views data0 down tab srcs ops refs omap ores ologs =>
+      let view := view_of views in
       let data := lookup_rows data0 in
       let beh := lookup_beh down tab in
-      let '(m, qs, log) := model_run true local (choice_of omap) shards data beh ops in
+      let '(st, res) := model_mrun true local (mchoice_of local srcs omap) view data beh srcs ops in
       let agree :=
-        multiset_eqb (canon_map m) omap
-        && all2 res_eqb qs ores
-        && multiset_eqb (filter (fun k => negb (memN (fst k) down)) log) olog
-        && all2 (fun o r => list_eqb r (reference o data shards)) ops refs in
-      let ok := spec_ok local shards data ops (amap_of shards omap) (map qres_of ores) in
+        seq_all (fun src =>
+                   let e := assoc_get ([], []) omap src in
+                   list_eqb (ids (assoc_get [] (lmap st) src)) (sortN (fst e))
+                   && multiset_eqb (canon_map (groups_of (assoc_get [] (rmap st) src))) (snd e)) srcs
+        && all2 res_eqb (map fst res) ores
+        && all2 (fun r l => multiset_eqb (filter (fun k => negb (memN (fst k) down)) (snd r)) l) res ologs
+        && all2 (fun o r => list_eqb r (reference (snd o) data (view (fst o)))) ops refs in
+      let lm_obs := map (fun e => (fst e, map (shard_by_id (view (fst e))) (fst (snd e)))) omap in
+      let rm_obs := map (fun e => (fst e, amap_of (view (fst e)) (snd (snd e)))) omap in
+      let quiet := match down, tab with [], [] => true | _, _ => false end in
+      let ok := mspec_ok local view data srcs ops lm_obs rm_obs
+                         (combine (map qres_of ores) ologs) quiet
+                && Nat.eqb (length ores) (length ops) && Nat.eqb (length ologs) (length ops) in
       code agree ok
   | CResp o out impl_err =>
       let m := match client_response true o out with CErr => true | COk _ => false end in
